@@ -95,6 +95,8 @@ def main():
                                           "note": "clamp's view grows by 32 bytes: some deep stacks now exceed field_view's 256-byte limit (ill-kinded by the library's own rule), nothing else changes"}
     index["benign_array_bulk_io"] = {"patch": "mutants/benign_array_bulk_io.patch", "properties": [], "silent": ["C06", "C07", "C08", "C12", "C15"],
                                      "note": "array payload written with one write and, when the widths match, read with one checked bulk read - same bytes, same failures"}
+    index["benign_nd_map_first_index_fastest"] = {"patch": "mutants/benign_nd_map_first_index_fastest.patch", "properties": [], "silent": ["C19", "C05", "C01", "C12"],
+                                                  "note": "nd_map rewritten as one counter tuple with carry, first index fastest (half of seed C05c): every tuple still visited exactly once - correct"}
     # seeded changes delivered by independent sub-agents (seeded/<id>/meta.json carries "check_with")
     import glob
     for mp in sorted(glob.glob(os.path.join(V, "seeded/*/meta.json"))):
